@@ -569,6 +569,32 @@ func runC17(c *Ctx) {
 						okL = false
 					}
 				}
+				// the lookup in an accessor of the store (dc.lookup(uri), "the caller must hold dc.m"): the call is the
+				// lookup, and it is made under the mutex
+				if fn := calleeOf(info, x); fn != nil && fn.Pkg() == p.Types {
+					for _, hfd := range allFuncDecls(p) {
+						if info.Defs[hfd.Name] != types.Object(fn) || hfd.Body == nil || hfd == fd {
+							continue
+						}
+						indexes := false
+						ast.Inspect(hfd.Body, func(m ast.Node) bool {
+							if ix, ok := m.(*ast.IndexExpr); ok {
+								if se, ok := ix.X.(*ast.SelectorExpr); ok {
+									if _, isMap := info.TypeOf(se).Underlying().(*types.Map); isMap {
+										indexes = true
+									}
+								}
+							}
+							return true
+						})
+						if indexes {
+							n++
+							if len(normHeld(heldAtDeep(p, fd, x), false)) == 0 && len(normHeld(heldAtDeep(p, hfd, hfd.Body), false)) == 0 {
+								okL = false
+							}
+						}
+					}
+				}
 			}
 			return true
 		})
